@@ -127,10 +127,26 @@ def run(ctx):
     ctx.check(tables_used(enc) == tables_used(dec), 'C06.R2', 'symmetric|same-tables', esite, 'both use %s' % tables_used(enc), 'encrypt uses tables %s, decrypt %s' % (tables_used(enc), tables_used(dec)))
     ctx.check(padded_modes(enc) == padded_modes(dec) and len(padded_modes(enc)) == 1, 'C06.R2', 'symmetric|padded-modes', esite, 'padded modes %s on both sides' % padded_modes(enc),
               'the modes that take padding differ: encrypt %s, decrypt %s' % (padded_modes(enc), padded_modes(dec)))
+    def cipher_context_vars(fn):
+        """locals bound to <cipher>.encryptor() / .decryptor()"""
+        return set(a.targets[0].id for a in walk_local(fn) if isinstance(a, ast.Assign) and isinstance(a.targets[0], ast.Name) and isinstance(a.value, ast.Call)
+                   and isinstance(a.value.func, ast.Attribute) and a.value.func.attr in ('encryptor', 'decryptor'))
+
+    def mode_vars(fn):
+        """locals passed as the mode argument of ciphers.Cipher(algorithm, mode, ...)"""
+        out = set()
+        for c in walk_local(fn):
+            if isinstance(c, ast.Call) and (call_name(c) or '').split('.')[-1] == 'Cipher':
+                mv = c.args[1] if len(c.args) > 1 else next((k.value for k in c.keywords if k.arg == 'mode'), None)
+                if isinstance(mv, ast.Name):
+                    out.add(mv.id)
+        return out
     for fn, undo in ((enc, False), (dec, True)):
         g = CFG(fn)
+        cvars = cipher_context_vars(fn)
+        mvars = mode_vars(fn)
         pads = [(n, c) for n, c in call_nodes(g, 'self._handle_symmetric_padding')]
-        core = [(n, c) for n in g.nodes for c in calls_at(n) if isinstance(c.func, ast.Attribute) and c.func.attr == 'update' and 'cryptor' in U(c.func.value)]
+        core = [(n, c) for n in g.nodes for c in calls_at(n) if isinstance(c.func, ast.Attribute) and c.func.attr == 'update' and isinstance(c.func.value, ast.Name) and c.func.value.id in cvars]
         site = '%s:%s CryptographyEngine.%s' % (CRYPTO, fn.lineno, fn.name)
         ok = len(pads) == 1 and len(core) == 1
         if ok:
@@ -150,7 +166,7 @@ def run(ctx):
         ctx.check(ok, 'C06.R2', 'CryptographyEngine.%s|padding-order' % fn.name, site, 'padding %s the cipher operation, undo_padding=%s' % ('after' if undo else 'before', undo),
                   'padding is not applied %s the cipher operation with undo_padding=%s' % ('after' if undo else 'before', undo))
         # IV handed to the mode constructor; GCM tag / AAD
-        modecalls = [c for c in walk_local(fn) if isinstance(c, ast.Call) and isinstance(c.func, ast.Name) and c.func.id == 'mode']
+        modecalls = [c for c in walk_local(fn) if isinstance(c, ast.Call) and isinstance(c.func, ast.Name) and c.func.id in mvars]
         with_iv = [c for c in modecalls if c.args and isinstance(c.args[0], ast.Name) and c.args[0].id == 'iv_nonce']
         gcm = [c for c in with_iv if len(c.args) + len(c.keywords) > 1]
         aad = [c for c in walk_local(fn) if isinstance(c, ast.Call) and isinstance(c.func, ast.Attribute) and c.func.attr == 'authenticate_additional_data' and U(c.args[0]) == 'auth_additional_data']
@@ -160,7 +176,7 @@ def run(ctx):
             okiv = kw.get('tag') == 'auth_tag' or (len(gcm[0].args) > 1 and U(gcm[0].args[1]) == 'auth_tag')
         elif okiv:
             okiv = len(gcm[0].args) > 1 and isinstance(gcm[0].args[1], ast.Constant) and gcm[0].args[1].value is None
-            tags = [n for n in walk_local(fn) if isinstance(n, ast.Attribute) and n.attr == 'tag' and 'encryptor' in U(n.value)]
+            tags = [n for n in walk_local(fn) if isinstance(n, ast.Attribute) and n.attr == 'tag' and isinstance(n.value, ast.Name) and n.value.id in cvars]
             okiv = okiv and len(tags) == 1
         ctx.check(okiv, 'C06.R2', 'CryptographyEngine.%s|iv-aad-tag' % fn.name, site, 'IV passed to the mode, AAD authenticated, GCM tag %s' % ('verified' if undo else 'returned'),
                   'IV / additional data / tag handling deviates from the sibling shape')
@@ -169,7 +185,7 @@ def run(ctx):
     for fn in (enc, dec):
         fg = CFG(fn)
         site = '%s:%s CryptographyEngine.%s' % (CRYPTO, fn.lineno, fn.name)
-        fin = [n for n in fg.nodes for c in calls_at(n) if isinstance(c.func, ast.Attribute) and c.func.attr == 'finalize' and isinstance(c.func.value, ast.Name) and c.func.value.id in ('encryptor', 'decryptor')]
+        fin = [n for n in fg.nodes for c in calls_at(n) if isinstance(c.func, ast.Attribute) and c.func.attr == 'finalize' and isinstance(c.func.value, ast.Name) and c.func.value.id in cipher_context_vars(fn)]
         ctx.check(bool(fin) and fg.all_paths_pass(fg.entry, fg.exit, fin), 'C06.R7', 'CryptographyEngine.%s|finalize-on-every-return' % fn.name, site,
                   'every normal return is preceded by finalize() (%d site(s))' % len(fin),
                   'a path returns a result without passing the cipher context\'s finalize(): for an authenticated mode the tag (and the additional data) is then never verified / produced')
@@ -204,6 +220,7 @@ def run(ctx):
         """PaddingMethod member -> normalised description of the padding object built in that arm."""
         g = CFG(fn)
         out = {}
+        padfn_vars = set(a.targets[0].id for a in walk_local(fn) if isinstance(a, ast.Assign) and isinstance(a.targets[0], ast.Name) and '_asymmetric_padding_methods' in U(a.value))
         padtab = {enum_member(k)[1]: (dotted(v) or '').split('.')[-1] for k, v in zip(tabs['_asymmetric_padding_methods'].value.keys, tabs['_asymmetric_padding_methods'].value.values)
                   if enum_member(k)}
         for n in g.nodes:
@@ -229,7 +246,7 @@ def run(ctx):
                         else:
                             kw.append('%s=%s' % (k.arg, U(v) if not isinstance(v, ast.Name) else '?'))
                     out.setdefault(members[0], set()).add('%s(%s)' % (cn.split('.')[1], ','.join(sorted(kw))))
-                elif isinstance(c.func, ast.Name) and c.func.id in ('padding_method',) and not c.args and not c.keywords:
+                elif isinstance(c.func, ast.Name) and c.func.id in padfn_vars and not c.args and not c.keywords:
                     out.setdefault(members[0], set()).add('%s()' % padtab.get(members[0]))
         return {k: sorted(v) for k, v in out.items()}
     for a, b in (('_encrypt_asymmetric', '_decrypt_asymmetric'), ('sign', 'verify_signature')):
